@@ -117,6 +117,9 @@ def gen_process_item(w, m):
         item["reexpress"] = w.choice(["GPU", "SI"])
         if item["reexpress"] == "GPU" and w.random() < 0.4:
             item["reexpress_whole"] = True     # GPU values noted as whole numbers (Python ints)
+    elif item["cond"].get("pt") is not None and steps >= 3 and w.random() < 0.25:
+        # condensation heat unknown for some steps: None is a legal entry of that per-step list
+        item["blank_heats"] = sorted(w.sample(range(steps), w.randint(1, max(1, steps // 2))))
     elif w.random() < 0.08:
         # a two-stage batch kept as ONE model: the second stage's clock restarts at 0 h
         item["second_stage"] = {"steps": w.choice([1, 2, 3, 5]), "dt": wg.rnd(w, 0.05, 0.5, 3),
@@ -302,6 +305,7 @@ def gen_plan(verif_seed, run, deep=False):
                ("save_cond", 3), ("load_cond", 4), ("load_membrane", 3), ("restart", 7), ("delete_process", 4), ("set_fits", 3)]
     if long_history:
         weights = [(k, (90 if k == "save_process" else wt)) for k, wt in weights]
+    many_results = o.random() < 0.05         # a membrane directory that already holds more than a hundred results
     # swarm: drop some op kinds for this run
     enabled = [k for k, _ in weights if k in ("save_process", "load_process") or o.random() < 0.8]
     perm_listing = o.random() < 0.7
@@ -436,6 +440,11 @@ def gen_plan(verif_seed, run, deep=False):
                     break
             op["fault"] = fl
             n_faults += 1
+    if many_results:
+        sp = [x for x in ops if x["op"] == "save_process"]
+        if sp:
+            at = ops.index(sp[0]) + 1
+            ops.insert(at, {"id": len(ops), "op": "clone_results", "of": sp[0]["id"], "count": o.randint(101, 130)})
     return {
         "prop": PROP, "verif_seed": verif_seed, "run": run, "run_seed": rs,
         "budget": w.choice([2000, 5000, 20000]),
@@ -586,7 +595,7 @@ def execute(ctx, plan, stats=None):
         def check_immutable(op, events, is_save):
             st["immutable_checks"] += 1
             wp = _write_paths(events)
-            for sid in sorted(entries):
+            for sid in sorted(entries, key=str):
                 e = entries[sid]
                 d = oc.tree_diff(e["tree"], oc.tree_digest(os.path.join(root, e["path"])) if os.path.isdir(os.path.join(root, e["path"])) else [])
                 touched = [p for p in wp if _inside(p, e["path"])]
@@ -605,6 +614,28 @@ def execute(ctx, plan, stats=None):
             if k == "restart":
                 new_session(op.get("skew"))
                 rec["gen"] = gen
+                trace.append(rec)
+                continue
+            if k == "clone_results":
+                # the user has many earlier results: the lane copies a completed result directory N times under
+                # other names (not a library call); every copy is a previously saved process directory from then on
+                e = entries.get(op["of"])
+                if e is None:
+                    rec["skipped"] = "nothing saved"
+                else:
+                    import shutil
+                    parent = os.path.dirname(e["path"])
+                    for j in range(op["count"]):
+                        name = "process_%04d" % (j * 7919 % 10000) if j % 2 else "process_-%03d" % (j * 613 % 1000)
+                        dst = os.path.join(parent, name)
+                        if os.path.exists(os.path.join(root, dst)):
+                            continue
+                        shutil.copytree(os.path.join(root, e["path"]), os.path.join(root, dst))
+                        names.setdefault(name, "C%d" % j)
+                        entries["clone-%s-%d" % (op["id"], j)] = {"kind": "process", "path": dst, "safe": e["safe"], "view": e["view"],
+                                                                    "tree": oc.tree_digest(os.path.join(root, dst)), "gen": e["gen"]}
+                    rec["cloned"] = op["count"]
+                    st["cloned_result_dirs"] = st.get("cloned_result_dirs", 0) + op["count"]
                 trace.append(rec)
                 continue
             if k == "delete_process":
